@@ -407,7 +407,17 @@ func runC13(c *Ctx) {
 				if shape == 2 {
 					pos = r.Intn(16)
 				} else {
-					pos = r.Intn(len(stream))
+					// header and head map of the first frame only: a mutated length prefix inside a message
+					// BODY makes the codec allocate up to 4 GiB (ReadString32Length trusts the prefix), which
+					// is outside this property and would only slow the check down
+					hl := 16
+					if len(stream) >= 9 {
+						hl = int(stream[7])<<8 | int(stream[8])
+					}
+					if hl > len(stream) {
+						hl = len(stream)
+					}
+					pos = r.Intn(hl)
 				}
 				if pos < len(stream) {
 					stream[pos] = byte(r.U64())
@@ -419,6 +429,9 @@ func runC13(c *Ctx) {
 				continue
 			}
 			stream = append(s[:r.Intn(len(s)+1)], r.Bytes(r.Intn(30))...)
+			if len(stream) > 10 {
+				stream[10] = 2 // an unregistered codec: a garbage body is not handed to a message codec (see above)
+			}
 		}
 		chunks := partition(r, stream, 1+r.Intn(4))
 		obs, _, _, _, crash, spin := driveRead(chunks, true)
